@@ -136,6 +136,15 @@ def gen_specs(run):
         ("bits_differ", [a, b2]), ("bits_differ_rev", [b2, a]), ("T_differs", [a, c3]), ("T_differs_rev", [c3, a]),
         ("Gb_differs", [a, d4]), ("H_differs", [a, e5]), ("H_differs_mid", [a, a, e5, a]),
     ]
+    nt_ = lambda x: {"proof": x["proof"], "stmt": x["stmt"]}                 # an entry without a transcript
+    np_ = lambda x: {"stmt": x["stmt"], "ctx": x["ctx"]}                     # ... without a proof
+    ns_ = lambda x: {"proof": x["proof"], "ctx": x["ctx"]}                   # ... without a statement
+    shapes += [
+        ("257_members_256_transcripts", [a] * 256 + [nt_(a)]), ("300_members_256_transcripts", [a] * 256 + [nt_(a)] * 44),
+        ("513_members_512_transcripts", [a] * 512 + [nt_(a)]), ("257_members_256_proofs", [a] * 256 + [np_(a)]),
+        ("257_members_256_statements", [a] * 256 + [ns_(a)]), ("256_members_257_transcripts", [a] * 256 + [{"ctx": a["ctx"]}]),
+        ("256_members_512_transcripts", [a] * 256 + [{"ctx": a["ctx"]}] * 256),
+    ]
     for name, vm in shapes:
         specs.append({"id": f"c03-shape-{name}", "group": "fm", "members": [mem, mem2, mem3, mem4, mem5],
                       "verifies": [{"mode": "VerifyOnly", "vmembers": vm, "_role": "shape"}] + [{"mode": "VerifyOnly", "vmembers": [x], "log": False, "_role": "single"} for x in (a, b2, c3, d4, e5)],
